@@ -11,8 +11,8 @@ from vlib.core import Failure
 PROP = "C01"
 RULE = (
     "a case is a HISTORY: pool kind (direct http | direct https | forwarding proxy | CONNECT tunnel) x maxsize 1..3 x block x "
-    "retries policy x preload_content x release_conn, a global per-attempt outcome script of <= 6 outcomes from 24 kinds "
-    "(connect refused / timeout / DNS error / TLS failure / CONNECT refused / BaseException at connect; EPIPE / reset / other "
+    "retries policy x preload_content x release_conn, a global per-attempt outcome script of <= 6 outcomes from 26 kinds "
+    "(connect refused / timeout / DNS error / TLS failure / CONNECT refused / BaseException at connect; EPIPE / EPIPE with an early readable reply / reset / other "
     "OSError / BaseException while sending head or body; read timeout / reset / EOF / garbage / short body then EOF or timeout "
     "/ BaseException while receiving; 200 / 302 / 503 keep-alive or close, Content-Length / chunked / close-delimited), and "
     "1-4 requests each with a disposal (read all, read k then release, release unread, drain, close, read k then close, "
@@ -31,7 +31,7 @@ EXHAUSTIVE = {"quick": False, "thorough": False}
 
 KINDS = ["http", "https", "fwd", "tunnel"]
 FAULTS_CONNECT = ["refused", "ctimeout", "gaierror", "cbase", "tlsfail", "connect_refused"]
-FAULTS_SEND = [{"o": k, "at": at} for k in ("epipe", "sreset", "sother", "sbase") for at in ("head", "body")]
+FAULTS_SEND = [{"o": k, "at": at} for k in ("epipe", "sreset", "sother", "sbase", "epipe_reply") for at in ("head", "body")]
 FAULTS_RECV = ["rtimeout", "rreset", "eof", "garbage", "short_eof", "short_timeout", "rbase", "rssl"]
 RESPS = [
     {"o": "resp", "status": 200, "keep": True}, {"o": "resp", "status": 200, "keep": False}, {"o": "resp", "status": 200, "framing": "chunked"},
@@ -272,8 +272,8 @@ def _inspect(fails, sig0, pool, net, N, case, owning_closes, when, brief):
     leaked = [s for s in net.sockets if s.connected and not s.really_closed and s.sid not in idle_socks]
     if leaked:
         fails.append(Failure("socket-leak", {**sig0, "when": when, "after_lost_slot": owning_closes > 0}, f"{when}: sockets {[s.sid for s in leaked]} are open but not idle in the pool (idle: {sorted(idle_socks)}): {brief()}"))
-    if case["block"] and net.max_open > N:
-        fails.append(Failure("max-open", {**sig0, "when": when}, f"block=True, maxsize={N} but {net.max_open} sockets were open at once: {brief()}"))
+    if case["block"] and net.max_open_conns > N:
+        fails.append(Failure("max-open", {**sig0, "when": when}, f"block=True, maxsize={N} but {net.max_open_conns} connections were open at once: {brief()}"))
 
 
 def check_case(case):
